@@ -500,3 +500,10 @@ package interpreter
 // Int and UInt are unbounded: their entries hold their constructors and impose no length limit, so that
 // fromBigEndianBytes(toBigEndianBytes(x)) is not rejected for large x.
 //@ theorem[C17] T_unbounded_types_have_no_byte_limit() = tblis("interpreter.BigEndianBytesConverters", "Int", "Converter", "interpreter.NewIntValueFromBigEndianBytes") && tbl("interpreter.BigEndianBytesConverters", "Int", "ByteLength") == 0 && tblis("interpreter.BigEndianBytesConverters", "UInt", "Converter", "interpreter.NewUIntValueFromBigEndianBytes") && tbl("interpreter.BigEndianBytesConverters", "UInt", "ByteLength") == 0
+
+// ---- C17: the fromString entries of the fixed-point types in interpreter.StringValueParsers (function literals stored
+// in the table by the package initialiser; addressed through the table, located by source position)
+//@ schema fixparse_entry(N=Fix64, S=8, MIN=-pow2(63), MAX=pow2(63)-1, UNSIGNED=false)
+//@ schema fixparse_entry(N=UFix64, S=8, MIN=0, MAX=pow2(64)-1, UNSIGNED=true)
+//@ schema fixparse_entry(N=Fix128, S=24, MIN=-pow2(127), MAX=pow2(127)-1, UNSIGNED=false)
+//@ schema fixparse_entry(N=UFix128, S=24, MIN=0, MAX=pow2(128)-1, UNSIGNED=true)
